@@ -4,7 +4,7 @@
 # 2. applies the patch to /repo, runs ./check <prop> quick, reverts
 PROP=$1; SD=$2; TIER=${3:-quick}; WT=/tmp/seed/$PROP
 export CARGO_NET_OFFLINE=true
-OUT=$SD/verify.log; : > $OUT
+OUT=$SD/verify.log; [ "$SKIP_CONFIRM" = "1" ] || : > $OUT
 if [ "$SKIP_CONFIRM" != "1" ]; then
 cd $WT || exit 9
 git checkout -q -- . ; rm -rf tests
